@@ -45,7 +45,7 @@ struct Node {
 }
 
 fn replay(x: &[u8], opts: &Opts, hist: &[u32]) -> (StreamH, usize, Vec<OpObs>) {
-    let mut h = StreamH::new(opts, &Sk::default());
+    let mut h = StreamH::new_logged(opts, &Sk::default());
     let mut off = 0usize;
     let mut obs = Vec::with_capacity(hist.len());
     for &k in hist {
@@ -64,7 +64,7 @@ fn replay(x: &[u8], opts: &Opts, hist: &[u32]) -> (StreamH, usize, Vec<OpObs>) {
 
 fn case_of(x: &[u8], opts: &Opts, hist: &[u32], extra: &[SOp]) -> Case {
     // reconstruct the ops with the actual slices (offsets advance by the bytes each write consumed)
-    let mut h = StreamH::new(opts, &Sk::default());
+    let mut h = StreamH::new_logged(opts, &Sk::default());
     let mut off = 0usize;
     let mut ops = Vec::new();
     for &k in hist {
@@ -106,7 +106,7 @@ pub fn explore(ctx: &Ctx, x: &[u8], opts: &Opts, mode: &Mode, label: &str) -> Gr
 
 /// History that feeds `x[..p]` like `write_all` would (re-offering what a write did not consume).
 pub fn write_all_history(x: &[u8], opts: &Opts, p: usize) -> Vec<u32> {
-    let mut h = StreamH::new(opts, &Sk::default());
+    let mut h = StreamH::new_logged(opts, &Sk::default());
     let mut off = 0usize;
     let mut hist = Vec::new();
     while off < p {
